@@ -23,7 +23,9 @@ namespace sqf
             using data_type = sqf::runtime::t_scalar;
         private:
             float m_value;
-            inline static int s_decimals = -1;
+            // Decimals used when printing (toFixed), of the runtime that is executing on this thread: the mode belongs
+            // to a runtime (runtime::number_decimals), which puts it here whenever it starts to execute.
+            inline static thread_local int s_decimals = -1;
         protected:
             bool do_equals(std::shared_ptr<data> other, bool invariant) const override
             {
